@@ -31,6 +31,32 @@ fn main() {
             let r = Filter::try_from(s.as_str());
             println!("RESULT filter {}", match r { Ok(f) => format!("ok {f}"), Err(e) => format!("err {e}") });
         }
+        // batch <zinc|filter>: hex inputs on stdin, one per line; "B i" before, "E i <ok|err|panic>" after each
+        "batch" => {
+            use std::io::{BufRead, Write};
+            let which = args[2].clone();
+            std::panic::set_hook(Box::new(|_| {}));
+            let stdin = std::io::stdin();
+            let out = std::io::stdout();
+            for (i, line) in stdin.lock().lines().enumerate() {
+                let line = match line { Ok(l) => l, Err(_) => break };
+                let bytes = unhex(line.trim());
+                { let mut o = out.lock(); let _ = writeln!(o, "B {i}"); let _ = o.flush(); }
+                let w = which.clone();
+                let r = std::panic::catch_unwind(move || {
+                    if w == "zinc" {
+                        let mut cur = std::io::Cursor::new(bytes);
+                        libhaystack::encoding::zinc::decode::parser::Parser::make(&mut cur).and_then(|mut p| p.parse_value()).is_ok()
+                    } else {
+                        let s = String::from_utf8_lossy(&bytes).to_string();
+                        Filter::try_from(s.as_str()).is_ok()
+                    }
+                });
+                let mut o = out.lock();
+                let _ = writeln!(o, "E {i} {}", match r { Ok(true) => "ok", Ok(false) => "err", Err(_) => "panic" });
+                let _ = o.flush();
+            }
+        }
         _ => {
             eprintln!("unknown family {fam}");
             std::process::exit(2);
